@@ -893,7 +893,14 @@ fn scan_trivia(source: &str) -> Vec<Scanned> {
     let mut escaped = false;
     let mut line_start = 0usize;
     let mut line_blank = true;
+    // Blank lines before the first code or comment are dropped from the output, so they must not be
+    // recorded as trivia either (a leading blank would force the first sequence to break, and the
+    // second formatting pass — which no longer sees it — would join it again).
+    let mut seen_content = false;
     while let Some((index, c)) = chars.next() {
+        if !c.is_whitespace() {
+            seen_content = true;
+        }
         if in_string {
             match c {
                 _ if escaped => escaped = false,
@@ -911,7 +918,7 @@ fn scan_trivia(source: &str) -> Vec<Scanned> {
         }
         match c {
             '\n' => {
-                if line_blank {
+                if line_blank && seen_content {
                     out.push(Scanned::Blank(line_start));
                 }
                 line_start = index + 1;
